@@ -41,6 +41,8 @@ RULE = (
     " Value OBJECTS taken from get/multiget responses are written back through set()/multiset"
     "(); every counter that can travel in a Report (usmStats, snmpMPDStats, snmpUnavailableCo"
     "ntexts, snmpUnknownContexts) is also read as an ordinary object."
+    " The agent confirms a SET with ANOTHER value (set/multiset return what was confirmed); o"
+    "ne client per level asks 550 different questions and then the first 120 again."
 )
 ASSUMPTIONS = [
     "reference agent conformant (vf/agent.py); count faults are injected at PDU level by the agent's pdu_hook and travel inside authentic (v3: signed/encrypted) responses",
